@@ -7,6 +7,7 @@ toolchain go1.23.5
 require (
 	github.com/anishathalye/porcupine v1.3.0
 	github.com/relab/gorums v0.0.0
+	google.golang.org/genproto/googleapis/rpc v0.0.0-20240318140521-94a12d6c2237
 	google.golang.org/grpc v1.62.1
 	google.golang.org/protobuf v1.33.0
 )
@@ -14,9 +15,9 @@ require (
 require (
 	github.com/golang/protobuf v1.5.4 // indirect
 	golang.org/x/net v0.22.0 // indirect
+	golang.org/x/sync v0.6.0 // indirect
 	golang.org/x/sys v0.18.0 // indirect
 	golang.org/x/text v0.14.0 // indirect
-	google.golang.org/genproto/googleapis/rpc v0.0.0-20240318140521-94a12d6c2237 // indirect
 )
 
 replace github.com/relab/gorums => /repo
